@@ -499,3 +499,81 @@ def flow_complete(ctx, oid, body, params, desc):
            ('%s: result does not depend on parameter(s) %s (result = %s)' % (desc, ', '.join(missing), show(e)[:300])),
            key='RF-FLOW|%s|%s' % (oid, body.path))
     return e
+
+
+# ---------------------------------------------------------------- per-path symbolic decisions
+
+def strip_mut(e):
+    """expression with every ('mutby', calls, base) replaced by its base"""
+    if not isinstance(e, tuple):
+        return e
+    if e and e[0] == 'mutby':
+        return strip_mut(e[2])
+    return tuple(strip_mut(x) if isinstance(x, tuple) else x for x in e)
+
+
+def symbolic_decisions(body, start_block, max_states=4000, stop_blocks=()):
+    """Explore forward from start_block carrying, per path, the comparison
+    expression last assigned to each bool local.  Returns decisions taken on
+    such values: list of dict(block, cond (expr), true, false, line) — the
+    per-arm form of `let take = match flag { A => x >= y, B => x <= y }; if take {..}`
+    as well as the direct `if x >= y` form."""
+    out = {}
+    seen = set()
+    todo = [(start_block, frozenset())]
+    n = 0
+    while todo:
+        b, fx = todo.pop()
+        if (b, fx) in seen or b in stop_blocks:
+            continue
+        seen.add((b, fx))
+        n += 1
+        if n > max_states:
+            break
+        blk = body.blocks[b]
+        f = dict(fx)
+        for i, s in enumerate(blk['s']):
+            if s['k'] == 'assign' and len(s['p']) == 1:
+                l = s['p'][0]
+                f.pop(l, None)
+                r = s['r']
+                if r['k'] == 'bin' and r['op'] in NEG or (r['k'] == 'un' and r['op'] == 'Not'):
+                    f[l] = body._expr_rvalue(r, (b, i), 0)
+                elif r['k'] == 'use':
+                    o = r['o']
+                    q = o.get('m') or o.get('c')
+                    if q and len(q) == 1 and q[0] in f:
+                        f[l] = f[q[0]]
+                    elif 'k' in o and o['k'].get('ty') == 'bool':
+                        f[l] = ('const', o['k'].get('int'))
+            elif s['k'] == 'dead':
+                f.pop(s['loc'], None)
+        t = blk['t']
+        if t['k'] == 'call' and len(t['dest']) == 1:
+            l = t['dest'][0]
+            f.pop(l, None)
+            if t.get('fn') in CMP_CALLS:
+                f[l] = body._expr_call(t, (b, len(blk['s'])), 0)
+        if t['k'] == 'switch':
+            q = t['d'].get('m') or t['d'].get('c')
+            if q and len(q) == 1 and q[0] in f and f[q[0]][0] != 'const':
+                ft = [tb for v, tb in t['vals'] if v == 0]
+                out[(b, f[q[0]])] = {'block': b, 'cond': f[q[0]], 'true': t['else'], 'false': ft[0] if ft else None, 'line': t.get('l')}
+            elif q and len(q) == 1 and q[0] in f and f[q[0]][0] == 'const':
+                # constant arm: only one edge feasible
+                val = f[q[0]][1]
+                tgt = None
+                for v, tb in t['vals']:
+                    if v == val:
+                        tgt = tb
+                nxt = [tgt if tgt is not None else t['else']]
+                nf = frozenset(f.items())
+                for x in nxt:
+                    todo.append((x, nf))
+                continue
+        if t['k'] in ('ret', 'unreachable', 'resume', 'terminate', 'codrop'):
+            continue
+        nf = frozenset(f.items())
+        for x in body.succ(b):
+            todo.append((x, nf))
+    return list(out.values())
